@@ -297,7 +297,7 @@ def search_cc(chk, r, n, thorough):
         beyond = i % 4 == 3
         Q2 = float(r.choice([2.0, 5.0, 20.0, 100.0])) if fl != "top" else float(r.choice([200.0, 1000.0]))
         lam = 1.0 / (1.0 + m * m / Q2)
-        x = float(r.uniform(lam, min(1.0, lam * 1.5))) if beyond else float(r.uniform(0.02, 0.9) * lam)
+        x = float(r.uniform(lam, min(1.0, lam * 1.5))) if beyond else float(max(r.uniform(0.02, 0.9) * lam, 0.0105))  # inside the grid
         if beyond and r.random() < 0.4:
             x = float(lam)  # chi == 1 up to rounding
         chi = x * (1 + m * m / Q2)
@@ -370,6 +370,47 @@ def search_mass_choice(chk, r):
                     chk.search_case("mass_of_produced_quark", abs(got - m2) <= 1e-9 * m2, what=f"{name} {proc} FFNS NfFF={nfff}: {type(c).__name__} uses m2={got}, the produced quark has m2={m2}", data=d, sample=d if fl == "bottom" and proc == "CC" else None)
 
 
+def search_total_closed_flavours(chk, r, n):
+    """F_total of a fixed-flavour run contains charm, bottom and top pair production side by side (same
+    classes, different masses): the part of a flavour whose threshold is closed must vanish, i.e.
+    total - light - (open flavours) has zero gluon / light-quark rows"""
+    import yadism
+
+    grid = cards.default_grid(8, 0.01)
+    plans = [
+        # (process, projectile, x, Q2, open flavours): NC: charm open, bottom closed; CC: chi_b >= 1
+        ("NC", "electron", 0.1, 8.0, ["charm"]),
+        ("EM", "electron", 0.05, 4.0, ["charm"]),
+        ("CC", "neutrino", 0.5, 20.0, ["charm"]),
+        ("CC", "antineutrino", 0.6, 30.0, ["charm"]),
+        ("NC", "positron", 0.3, 60.0, ["charm"]),
+    ]
+    for i in range(n):
+        proc, proj, x, Q2, open_fl = plans[i % len(plans)]
+        kind = r.choice(["F2", "FL"]) if proc != "CC" else r.choice(["F2", "F3"])
+        names = [f"{kind}_{f}" for f in ["total", "light"] + open_fl]
+        t = cards.theory(PTO=1, FNS="FFNS", NfFF=3, IC=0)
+        o = cards.obs({nm: [dict(x=x, Q2=Q2)] for nm in names}, prDIS=proc, ProjectileDIS=proj, interpolation_xgrid=grid, interpolation_polynomial_degree=3)
+        case = dict(kind=kind, process=proc, projectile=proj, x=x, Q2=Q2, open=open_fl, closed=["bottom", "top"])
+        # the closed flavours really are closed
+        mb2, mt2 = 4.92**2, 172.5**2
+        closed_ok = (x * (1 + mb2 / Q2) >= 1.0) if proc == "CC" else (Q2 * (1 - x) / x <= 4 * mb2)
+        try:
+            out = yadism.run_yadism(t, o)
+        except Exception as e:  # noqa
+            chk.search_case("total_minus_open_flavours", False, what=f"{kind}_total {proc} FFNS3 x={x} Q2={Q2}: {type(e).__name__}: {e}"[:200], data=case)
+            continue
+        worst, scale = 0.0, 0.0
+        rows = [i_ for i_, p_ in enumerate(PIDS) if abs(p_) <= 3 or p_ == 21]
+        for k in out[names[0]][0].orders:
+            tot = np.asarray(out[names[0]][0].orders[k][0])
+            rest = sum(np.asarray(out[nm][0].orders[k][0]) for nm in names[1:])
+            worst = max(worst, float(np.abs((tot - rest)[rows]).max()))
+            scale = max(scale, float(np.abs(tot[rows]).max()))
+        case.update(max_abs_remainder=worst, scale=scale)
+        chk.search_case("total_minus_open_flavours", (not closed_ok) or worst <= 1e-12 * max(scale, 1e-300), what=f"{kind}_total {proc} {proj} FFNS NfFF=3 PTO=1 x={x} Q2={Q2}: total - light - {'-'.join(open_fl)} has gluon/light rows up to {worst} although bottom and top are closed", data=case, sample=case if i == 0 else None, nontrivial=closed_ok and scale > 0)
+
+
 def run(tier):
     chk = common.Check("C09", tier)
     thorough = tier == "thorough"
@@ -386,6 +427,7 @@ def run(tier):
     search_cc(chk, r, 48 if thorough else 16, thorough)
     search_hadronic(chk, r, 36 if thorough else 9, 2)
     search_missing(chk, r, 16 if thorough else 2)
+    search_total_closed_flavours(chk, r, 10 if thorough else 4)
     chk.assumptions += [
         "the guard, _xi, _eta, labda and the convolution point are regenerated from the source each run and compared with the real methods on exact boundary points (double arithmetic exact there) and random points",
         "shape facts (every regular part starts with the guard, no singular parts, the decorator wraps all orders, early exits of conv.convolution, mass lookup) are read from the syntax tree each run and decided by the kernel; the hand model of conv.convolution's assembly is tied by the convolution_exits correspondence on the real eko basis",
